@@ -25,12 +25,15 @@ class Recorder:
         self.max_nodes = max_nodes
         self.raised = []         # exceptions that left the agent's trace function
         self.on_event = None
+        self.all_frames = False
         self.inv_first_last = {} # serial -> [first seq, last seq, thread, function, basename]
         self.world = None        # set by attach(): enables per-event attribution of agent effects
         self.effects = {}        # event seq -> [(kind, tracepoint id or None, payload)]
         self._marks = {}         # thread -> (seq, len(pushed), len(sink.calls))
         self.all_effects = []    # (event seq, thread, kind, tp, payload) in order
         self.errors = {}         # event seq -> error records the agent logged during that event
+        self.exprs_for = {}      # (basename, line) -> expressions to evaluate on the reference frame at capture
+        self.post_ns = {}        # event seq -> simulated clock when the agent's function returned
 
     def install(self):
         shims.TRACE_SEAM.recorder = self
@@ -48,6 +51,7 @@ class Recorder:
         if mark is None or self.world is None:
             return
         seq, np, ns, nl = mark
+        self.post_ns[seq] = self.k.now_ns
         out = []
         w = self.world
         errs = [(r[0], r[1], r[2], str(r[3])[:200]) for r in w.logs.records[nl:] if r[0] in ("ERROR", "CRITICAL")]
@@ -129,7 +133,33 @@ class Recorder:
                         nxt.append(c)
             level = nxt
             d += 1
-        cap = {"seq": seq, "thread": tname, "event": event, "basename": frame.f_code.co_filename.rsplit("/", 1)[-1],
+        exprs = {}
+        for ex in self.exprs_for.get((frame.f_code.co_filename.rsplit("/", 1)[-1], frame.f_lineno), ()):
+            try:
+                val = eval(ex, frame.f_globals, f_locals)
+                n = g.node(val)
+                lv = [n]
+                for _ in range(3):
+                    lv = [c for m in lv for (_n, _o, c) in g.expand(m)][:2000]
+                exprs[ex] = ("ok", n)
+            except BaseException as e:  # noqa
+                exprs[ex] = ("err", e)
+        all_locals = []
+        if self.all_frames:
+            f = frame.f_back
+            while f is not None:
+                fn_ = f.f_code.co_filename
+                if fn_.startswith(HOST_PREFIXES):
+                    fl = dict(f.f_locals)
+                    rts = {name: g.node(v) for name, v in fl.items()}
+                    lv = list(rts.values())
+                    for _ in range(self.depth - 1):
+                        lv = [c for m in lv for (_n, _o, c) in g.expand(m)][:5000]
+                    all_locals.append((fl, rts))
+                else:
+                    all_locals.append((None, None))
+                f = f.f_back
+        cap = {"exprs": exprs, "outer": all_locals, "seq": seq, "thread": tname, "event": event, "basename": frame.f_code.co_filename.rsplit("/", 1)[-1],
                "line": frame.f_lineno, "func": frame.f_code.co_name, "serial": ser, "stack": read_stack(frame),
                "locals": f_locals, "graph": g, "roots": roots, "now_ns": self.k.now_ns,
                "globals": frame.f_globals}
